@@ -29,7 +29,9 @@ FMT_CT = {"json": "application/json", "xml": "application/xml", "textxml": "text
 
 
 def decode_label(raw):
-    """what Base64URLConverter yields for the raw URL segment: ('ok', identifier) or ('bad',)"""
+    """what Base64URLConverter yields for the raw URL segment: ('ok', identifier), ('bad',) or ('nonascii',)"""
+    if any(ord(c) > 127 for c in raw):
+        return ("nonascii",)        # urlsafe_b64decode(str) refuses non-ASCII text with a plain ValueError
     try:
         return ("ok", base64.urlsafe_b64decode(raw + "==").decode("utf-8"))
     except (binascii.Error, UnicodeDecodeError):
@@ -99,7 +101,7 @@ def cid(sym, raw):
     if raw is None:
         return "IdAbsent"
     lab = decode_label(raw)
-    return f"(IdOk {sym(lab[1])})" if lab[0] == "ok" else "IdBad"
+    return f"(IdOk {sym(lab[1])})" if lab[0] == "ok" else ("IdNonAscii" if lab[0] == "nonascii" else "IdBad")
 
 
 def cqint(raw):
